@@ -325,6 +325,64 @@ def chains(ctx, n):
         ctx.count("chain_len_%d" % (len(vals) - 1))
 
 
+def reordered(v):
+    """the same value with the insertion order of every dict reversed: == v, equal to v up to dict order (veqb)"""
+    if isinstance(v, list):
+        return [reordered(x) for x in v]
+    if isinstance(v, tuple):
+        return tuple(reordered(x) for x in v)
+    if isinstance(v, dict):
+        return {k: reordered(x) for k, x in reversed(list(v.items()))}
+    return v
+
+
+VEQ_FIXED = [({'k': {'a': 1, 'b': 2}}, {'k': ['a', 'b']}),            # C01_chain_veq_refuted_rebuild
+             ({'a': {1, 2}, 'b': {'x': 1, 'y': 2}}, {'a': {2, 3}, 'b': {'y': 7, 'z': 5}}),   # first step of the Coq example
+             ({'p': [1, {'u': 1, 'v': [2, 3]}], 'q': 's'}, {'q': 't', 'p': [1, {'v': [2, 4, 3], 'w': None}]})]
+
+
+def veq_base_clause(ctx, pairs, n):
+    """C01_roundtrip_veq_base_partial / C01_chain_veq_partial: the delta of (t1, t2) applied to a REORDERED copy of t1
+    (every dict's insertion order reversed).  Inside the guards and when every type change whose values are omitted
+    sits on a value that the reordering leaves alone (okb), the result is t2 and nothing is logged (direct oracle);
+    outside okb the outcome is recorded.  The model is run on the same reordered base (correspondence c01v)."""
+    from deepdiff import DeepDiff, Delta
+    rng = ctx.rng
+    cases = []
+    cand = [(a, b) for a, b in list(VEQ_FIXED) + list(pairs) if V.canon(reordered(a)) != V.canon(a) and in_guard(a, b)]
+    for t1, t2 in cand[:n]:
+        zip_, thr, always = rng.random() < 0.5, rng.choice(THRS), rng.random() < 0.3
+        cfg = dict(zip_ordered_iterables=zip_, threshold_to_diff_deeper=thr)
+        base = reordered(t1)
+        try:
+            dd = DeepDiff(copy.deepcopy(t1), copy.deepcopy(t2), **cfg)
+            d = Delta(dd, always_include_values=always, mutate=False)
+            with DC.Counting() as cnt:
+                r = copy.deepcopy(base) + d
+        except Exception as e:
+            ctx.count("veq_base:raised_" + type(e).__name__)
+            continue
+        tcs = list(dd.tree.get("type_changes", []) or [])
+        risky = (not always) and any(V.canon(reordered(lv.t1)) != V.canon(lv.t1) for lv in tcs)
+        good = V.typed_eq(r, t2) and cnt.n == 0
+        ctx.seen(("veq_base", repr(t1), repr(t2), zip_, thr, always), nontrivial=not V.typed_eq(t1, t2))
+        if good:
+            ctx.count("veq_base:result_equals_t2" + (":type_change_on_reordered_value" if risky else ""))
+        elif risky:
+            ctx.count("veq_base:outside_okb:constructor_call_on_the_reordered_value_differs")
+        else:
+            ctx.fail(dict(t1=repr(t1), t2=repr(t2), base=repr(base), observed=repr(r), errors=cnt.n, cfg=cfg,
+                          always_include_values=always, **describe(t1, t2)),
+                     "reordered t1 + Delta(DeepDiff(t1,t2)) != t2")
+        rem, add = DC.impl_orders(d)
+        tp = DC.type_change_pairs(dd.tree)
+        conv = DC.conv_table(tp + [(ty, reordered(old)) for ty, old in tp])
+        exp = [DC.delta_obs(d.diff), [DC.canon_unordered(r), cnt.n > 0]]
+        tag = dict(t1=repr(t1), t2=repr(t2), base=repr(base), zip=zip_, thr=thr, always=always)
+        cases.append((DC.model_expr(t1, t2, zip_, thr, False, always, base, conv, rem, add), exp, tag))
+    ctx.coq_cases("c01v", DC.HDR, cases, shard=60, label="payload+apply on a reordered base")
+
+
 def plant_ld(rng, depth, pair):
     """wrap (a, b) identically into `depth` levels of list / dict (no tuples)"""
     a, b = pair
@@ -475,6 +533,7 @@ def run(ctx):
         one_pair(ctx, t1, t2, cases, full=True, corr=False)
     chains(ctx, 400 if ctx.thorough else 60)
     ignore_order_clause(ctx, 1500 if ctx.thorough else 250)
+    veq_base_clause(ctx, pairs + su, 600 if ctx.thorough else 45)
     for c in cases[:3]:
         ctx.sample(c[2])
     hdr = DC.HYP_HDR
